@@ -173,6 +173,25 @@ def roundtrip(ctx, cs, seed):
     rng = random.Random(seed)
     case = lambda: {'kind': 'roundtrip', 'charset': cs, 'seed': seed}  # noqa: E731
     mid, texts = build_file(rng, cs)
+    used = rng.choice(('', '', '', 'handled-before', 'frozen', 'frozen-handled-before'))
+    if used:
+        # the messages have a life outside the file: encoded, printed, copied, hashed as frozen twins under the default
+        # charset before they are saved under the file's - or the tracks hold the immutable twins themselves
+        from .. import abuse
+        case = lambda: {'kind': 'roundtrip', 'charset': cs, 'seed': seed, 'messages': used}  # noqa: E731
+        if 'handled-before' in used:
+            for tr in mid.tracks:
+                for m in tr:
+                    abuse.handle(m)
+        if used.startswith('frozen'):
+            abuse.freeze_tracks(mid)
+            if 'handled-before' in used:
+                for tr in mid.tracks:
+                    for m in tr:
+                        try:
+                            m.bytes(), m.hex(), hash(m)
+                        except (UnicodeError, TypeError):
+                            pass
     buf = io.BytesIO()
     try:
         mid.save(file=buf)
@@ -189,6 +208,22 @@ def roundtrip(ctx, cs, seed):
     want = [(ti, t, s.encode(cs)) for ti, t, s in texts]
     ctx.check('file payload == text.encode(charset)', got == want, f'payload:{cs}', case,
               lambda: {'got': [g[2].hex() for g in got][:4], 'want': [w[2].hex() for w in want][:4]})
+    if used:
+        # and outside the file the very same message objects still encode with the default charset
+        for tr in mid.tracks:
+            for m in tr:
+                if m.type in rmeta.TEXT_TYPES:
+                    text = ''.join(getattr(m, 'text', None) if hasattr(m, 'text') else m.name)     # (the characters, whatever its class prints)
+                    try:
+                        wantb = text.encode('latin1')
+                    except UnicodeError:
+                        continue
+                    try:
+                        gotb = bytes(m.bytes())
+                    except Exception as exc:
+                        gotb = f'{type(exc).__name__}: {exc}'.encode()
+                    ctx.check('default charset after successful call', gotb.endswith(wantb) and (cs == 'latin1' or wantb == text.encode(cs) or not gotb.endswith(text.encode(cs))),
+                              f'message-remembers-file-charset:{cs}', case, lambda: {'text': text[:20], 'bytes': gotb.hex()[:60]})
     # load under cs, then under latin1, then under cs again (state kept between loads would show)
     import contextlib
     for li, cs2 in enumerate((cs, 'latin1', cs, cs)):
